@@ -36,6 +36,7 @@ if [ $# -gt 0 ]; then
     results="$results{\"check\":\"$id\",\"tier\":\"quick\",\"exit\":$rc,\"violation_lines\":$nv},"
   done
   git -C /repo checkout -- .
+  git -C /verif checkout -- evidence; rm -f /verif/replays/*.json
 fi
 if [ "$suite" != fail ] && [ $dwith = fail ] && [ $dwithout = pass ]; then
   round=""; case "$out" in *seed2*) round="r2";; *seed3*) round="r3";; esac
